@@ -251,6 +251,9 @@ static const int kTruthTypes[] = {0, 1, 2, 3, 4, 1, 2};          // simulable by
 static const int kFitCommon[] = {0, 1, 2, 3, 4, 1, 2, 0, 11, 7};   // frequent
 static const int kFitAll[] = {0, 1, 2, 3, 4, 5, 6, 7, 8, 9, 10, 11, 12, 13, 19, 21, 25};
 
+// known finding C17-nan-parameter: the Gauss-Newton step can produce NaN parameters; CovMatern::computeMarkovCoeffs turns a
+// NaN parameter into an int (undefined behaviour, sanitizer abort), so MATERN is only fitted with C17_ENABLE=matern
+static int fitType(int t) { return (t == 7 && !enabled("matern")) ? 10 : t; }
 static StructC genTruthStruct(int ndim, int nvar, double hmax, double gscale, bool allowLinear)
 {
   StructC s;
@@ -446,7 +449,7 @@ static FitCase genFitCommon(bool sillsOnly)
   {
     for (int attempt = 0; attempt < 20; attempt++)
     {
-      int t = G::pct(75) ? kFitCommon[G::i(0, 9)] : kFitAll[G::i(0, 16)];
+      int t = fitType(G::pct(75) ? kFitCommon[G::i(0, 9)] : kFitAll[G::i(0, 16)]);
       if (c.constSill > 0 && infoOf(t).minOrder >= 0) continue; // "sum of sills" only speaks about stationary structures
       if (distinct && std::find(c.types.begin(), c.types.end(), t) != c.types.end()) continue;
       c.types.push_back(t);
@@ -1024,7 +1027,9 @@ static bool checkConstraints(const FitCase& c, const Model& m, const std::vector
     }
     if (!okc)
     {
-      ctx.fail(site + ":constraint:" + what + (k.kind == -1 ? ":lower" : k.kind == 1 ? ":upper" : ":equal"),
+      // sill items with the Goulard option switched off by the caller are a recorded root cause of their own
+      std::string variant = (k.elem == 4 && !c.opt.goulard) ? ":goulard-off" : (k.kind == -1 ? ":lower" : k.kind == 1 ? ":upper" : ":equal");
+      ctx.fail(site + ":constraint:" + what + variant,
                fmt("structure %d (requested rank %d, %s) %s[%d,%d] = %.10g violates %s %.10g", fi, k.icov, infoOf(c.types[(size_t)k.icov]).name, what, k.iv1, k.iv2, got, k.kind == -1 ? ">=" : k.kind == 1 ? "<=" : "==", k.value));
       return false;
     }
@@ -1325,7 +1330,7 @@ static VMapCase genVMap()
   for (int s = 0; s < nt; s++)
     for (int attempt = 0; attempt < 20; attempt++)
     {
-      int t = G::pct(80) ? kFitCommon[G::i(0, 9)] : kFitAll[G::i(0, 16)];
+      int t = fitType(G::pct(80) ? kFitCommon[G::i(0, 9)] : kFitAll[G::i(0, 16)]);
       if (std::find(c.types.begin(), c.types.end(), t) != c.types.end()) continue;
       c.types.push_back(t);
       break;
